@@ -66,7 +66,7 @@ class C02(object):
                    'conservative independent graph analysis of the submitted text proves unreferenced']
     required_counters = ('equations_judged', 'exact_judged', 'lag_judged', 'hostile.loud', 'failpoint.recovered',
                          'model_level.judged', 'rival_user_function.cases', 'solver_reused_for_variant.cases',
-                         'solver_reused_after_coarser_block.cases')
+                         'solver_reused_after_coarser_block.cases', 'route.constructor', 'route.manual_steps')
 
     def n_cases(self, tier):
         return 400 if tier == 'quick' else 40000
@@ -132,7 +132,10 @@ class C02(object):
         return {'kind': 'system', 'spec': spec, 'text': G.render(spec), 'tol': tol, 'earlier': earlier, 'userfn': userfn,
                 'tol_via': 'line' if spec['tol'] is not None else 'param',
                 'reduction': rng.random() < 0.6, 'trace': rng.choice([None, None, 1, spec['maxtime']]),
-                'cap': rng.choice([5000, 5000, 5000, 400, 60, 10, 1])}
+                'cap': rng.choice([5000, 5000, 5000, 400, 60, 10, 1]),
+                # how the job is submitted: ParseString + SolveEquation, the text given to the constructor, or the
+                # public pieces called one by one (ExtractVariableList, SetInitialConditions, SolveStep per period)
+                'route': ['parse_solve', 'constructor', 'manual_steps', 'parse_solve'][idx % 4] if earlier is None else 'parse_solve'}
 
     # ------------------------------------------------------------------------------------------
     def run_model(self, case):
@@ -204,10 +207,28 @@ class C02(object):
                 solver.ParameterErrorTolerance = case['tol']
         outcome = 'returned'
         err = None
+        route = case.get('route', 'parse_solve') if kind == 'system' else 'parse_solve'
+        if route != 'parse_solve':
+            counters['route.' + route] = 1
         try:
             with contextlib.redirect_stdout(io.StringIO()):
-                solver.ParseString(text)
-                solver.SolveEquation()
+                if route == 'constructor':
+                    fresh = EquationSolver(text, run_equation_reduction=case['reduction'])
+                    for attr in ('MaxIterations', 'TraceStep', 'ParameterErrorTolerance'):
+                        setattr(fresh, attr, getattr(solver, attr))
+                    for k_, f_ in solver.Functions.items():
+                        fresh.AddFunction(k_, f_)
+                    solver = fresh
+                    solver.SolveEquation()
+                elif route == 'manual_steps':
+                    solver.ParseString(text)
+                    solver.ExtractVariableList()
+                    solver.SetInitialConditions()
+                    for step_ in range(1, solver.Parser.MaxTime + 1):
+                        solver.SolveStep(step_)
+                else:
+                    solver.ParseString(text)
+                    solver.SolveEquation()
         except ConvergenceError as e:
             outcome, err = 'ConvergenceError', str(e)[:100]
         except ValueError as e:
